@@ -274,10 +274,16 @@ func (s *clientSocket) Connect() {
 	s.manager.destroyMu.Unlock()
 
 	// If already connected, send a CONNECT packet.
-	if managerConnState == clientConnStateConnected && s.state != clientSocketConnStateConnectPending {
+	//
+	// The state of the manager is looked at now, not before the calls above (they can take
+	// a while, and the connection can end in the meantime), and the epoch is the one of the
+	// connection that is found connected: a CONNECT packet that is recorded as sent with the
+	// next connection keeps the open handler of that connection from sending one.
+	epoch := s.manager.connEpoch.Load()
+	if s.manager.connected() && s.manager.connEpoch.Load() == epoch && s.state != clientSocketConnStateConnectPending {
 		s.state = clientSocketConnStateConnectPending
 		s.closeReported = false
-		s.connectSentEpoch = s.manager.connEpoch.Load() + 1
+		s.connectSentEpoch = epoch + 1
 		s.onOpen()
 	}
 }
